@@ -39,8 +39,10 @@ S-expression format
                                                        eq ne lt le gt ge is isnot   (shr = >>> logical, sar = >>)
            | (andalso a b) | (orelse a b)
            | (call F e*)            top-level fn or builtin print/println/exit/unreachable/fatal_error
-           | (scall T F e*)         T::F(e*)   (Array new/zero/fill, Vec new, Int32/Int64 max_value/min_value, user statics)
-           | (meth M recv e*)       recv.M(e*) (user methods, trait methods, builtin methods of primMeth)
+           | (scall T F e*)         T::F(e*)   (Array new/zero/fill/fill_with, Vec new, Int32/Int64 max_value/min_value, user statics)
+           | (meth M recv e*)       recv.M(e*) (user methods, trait methods, builtin methods of primMeth / primMethExt:
+                                    conversions, wrapping_* / overflowing_*, to_string_hex/binary, len_utf8, Option, String,
+                                    Array/Vec size/push/pop/get/set/clone/to_array ...)
            | (callv f e*)           call of a lambda value
            | (lambda ((p T)*) T body)
            | (tuple e*) (tget e I) (new NAME e*) (field e F) (variant ENUM VARIANT e*)
@@ -49,6 +51,13 @@ S-expression format
            | (while c body) (for X lo hi body) (foreach X collection body) (break) (continue) (return) (return e)
            | (index a i) (template e*) (as TRAIT e) (at LINE e) (assert e)
   Option is the enum "Option" with variants Some/None.  Strings are UTF-8 in lower-case hex.
+
+Scenarios (functions `s_xxx(g, sc, out, ctx)` registered in SCENARIOS; each sets g.feat(...) names for the evidence
+histogram).  Programs with index % 9 == 4 concentrate on s_intmatch, those with index % 9 == 7 on one of NEW_SCENARIOS in
+turn (s_aggarray: arrays / vectors of small tuples and structs with neighbours allocated behind them; s_charstrmatch:
+literal matches on Char / String / tuples / UInt8; s_loops: range / collection / nested loops and their exits;
+s_convert: conversions at their boundaries; s_fieldwidth: records with padding in every kind of home).  The typed twin of
+C05 (gen/c05_mutants.py, lean/DoraModel/Typing) must know every construct a scenario emits.
 """
 import random
 
@@ -427,7 +436,7 @@ class DoraEmitter:
             return 'break'
         if k == 'continue':
             return 'continue'
-        if k in ('let', 'letp', 'assign', 'while', 'for', 'foreach'):
+        if k in ('let', 'letp', 'assign', 'cassign', 'while', 'for', 'foreach'):
             return self.stmt_inline(n, line)
         raise ValueError(k)
 
@@ -571,7 +580,7 @@ def getattr_inline(n):
 
 def is_stmt(n):
     """statement forms need a `;` even in last position (their value is unit)"""
-    return n.k in ('let', 'letp', 'assign', 'while', 'for', 'foreach', 'return', 'break', 'continue') or \
+    return n.k in ('let', 'letp', 'assign', 'cassign', 'while', 'for', 'foreach', 'return', 'break', 'continue') or \
         (n.k == 'call' and n.a[0] in ('println', 'print')) or n.k == 'assert' or \
         (n.k in ('if', 'match') and (n.ty is None or n.ty == T_UNIT)) or (n.ty == T_UNIT and n.k in ('meth', 'call', 'callv'))
 
@@ -637,6 +646,10 @@ def sx(n):
         return '(let %s Unit %s)' % (pat_sexp(a[0]), sx(a[1]))
     if k == 'assign':
         return '(assign %s %s)' % (sx(a[0]), sx(a[1]))
+    if k == 'cassign':
+        return '(assign %s (bin %s %s %s))' % (sx(a[1]), a[0], sx(a[1]), sx(a[2]))
+    if k == 'mlcall':
+        return '(call %s%s)' % (a[0], ''.join(' (at %d %s)' % (x.line, sx(x)) for x in a[1:]))
     if k == 'while':
         return '(while %s %s)' % (sx(a[0]), sx_block(a[1]))
     if k == 'for':
@@ -1563,6 +1576,20 @@ AGG_LENS = [0, 1, 2, 3, 5, 7, 8, 9, 15, 16, 17, 1, 3, 5, 7]
 AGG_TAG = {T_I32: 'i32', T_I64: 'i64', T_U8: 'u8', T_BOOL: 'b', T_CHAR: 'c', T_STR: 'str', T_AGK: 'cls', T_OPTK: 'optcls'}
 
 
+def agg_size(layout):
+    """byte size of a tuple / struct with these components (each aligned to its own size, total to the largest)"""
+    off, al = 0, 1
+    for t in layout:
+        sz = 1 if t in (T_U8, T_BOOL) else 4 if t in (T_I32, T_CHAR) else 8
+        off = (off + sz - 1) // sz * sz + sz
+        al = max(al, sz)
+    return (off + al - 1) // al * al
+
+
+# layouts for which the rounding of the array's byte size matters (odd lengths): element size not a multiple of the word
+AGG_TAIL = [l for l in AGG_LAYOUTS if agg_size(l) % 8 != 0 and agg_size(l) not in (1, 2, 4)]
+
+
 def agg_need_class(g):
     if not getattr(g, 'agk', False):
         g.agk = True
@@ -1724,11 +1751,20 @@ def s_aggarray(g, sc, out, ctx):
     element out and changing the copy, Vec growth over its capacity steps, fill / fill_with / new / clone."""
     r = g.r
     layout = r.choice(AGG_LAYOUTS)
+    n = r.choice(AGG_LENS)
+    how = r.choice(['fill', 'fill', 'new', 'fill_with', 'vec-push', 'vec-push', 'vec-new'])
+    if not getattr(g, 'agg_first', False) and (r.random() < 0.7 or ctx.get('forced')):
+        # the first one of a program: an array (not a vector, whose capacity is a power of two) of an odd number of
+        # elements whose size is not a multiple of the word, so the rounding of the byte size decides where the next
+        # object starts
+        layout = r.choice(AGG_TAIL)
+        n = r.choice([1, 3, 5, 7, 9, 15, 17])
+        how = r.choice(['fill', 'new', 'fill_with'])
+    g.agg_first = True
     has_ref = any(t in (T_STR, T_AGK, T_OPTK) for t in layout)
     ag = Agg(g, layout, as_struct=r.random() < 0.5)
     ety = ag.ty
-    n = r.choice(AGG_LENS)
-    how = r.choice(['fill', 'fill', 'new', 'fill_with', 'vec-push', 'vec-push', 'vec-new'])
+    g.feat('agg-size:%d' % agg_size(layout))
     if how == 'new' and n > 9:
         how = 'fill'
     is_vec = how.startswith('vec')
@@ -2765,17 +2801,22 @@ def gen_program(seed, index, kind=None, only=None):
             g.decls.append(dict(k='global', name='G%d' % i, ty=ty, mut=mut, init=lit(ty, r.randint(-100, 100))))
     add_decls(g)
     sc = Scope()
+    forced = None
     if only is None and kind == 'normal' and index % 9 == 4:
         # every ninth program concentrates on integer matches (jump-table / binary-search lowering at its edges)
         only = ['s_intmatch', 's_probe', 's_lets']
     if only is None and kind == 'normal' and index % 9 == 7:
         # ... and every ninth one on one of the scenarios around aggregates in arrays, literal matches on Char / String /
         # tuples, loop forms, conversions, field widths (in turn), so that each of them is present in every run
-        only = [NEW_SCENARIOS[(index // 9) % len(NEW_SCENARIOS)], 's_probe', 's_lets']
+        forced = NEW_SCENARIOS[(index // 9) % len(NEW_SCENARIOS)]
+        only = [forced, 's_probe', 's_lets']
     ctx = dict(depth=0, only=only)
     n = r.randint(3, 7) if kind == 'normal' else r.randint(1, 4)
+    pre = []
+    if forced:
+        globals()[forced](g, sc, pre, dict(ctx, forced=True))          # at least one instance, ahead of the random statements
     body = gen_block(g, sc, ctx, n)
-    stmts = list(body.a)
+    stmts = pre + list(body.a)
     expect = None
     ret = T_UNIT
     if kind != 'normal':
